@@ -28,6 +28,15 @@ def shapes(tier: str) -> List[tuple]:
 
 
 def call(ev: dict) -> dict:
+    """helpers are pure functions: the argument arrays are compared with copies taken before the call"""
+    watch = []
+    out = _call(ev, watch)
+    if any(not np.array_equal(a, c) for a, c in watch):
+        return {"st": "operand-changed"}
+    return out
+
+
+def _call(ev: dict, watch: list) -> dict:
     """Execute one helper call on the real code and project the result."""
     import bind
     from pyttb import pyttb_utils as u
@@ -40,6 +49,7 @@ def call(ev: dict) -> dict:
             sdt = narrow if all(x <= 127 for x in a["shape"]) else int
             subs = bind.lay(np.array(a["subs"], dtype=sdt).reshape(len(a["subs"]), len(a["shape"])))
             # the last-index-fastest numbering of the mirrored problem is the same question (rotated with the layout)
+            watch.append((subs, subs.copy()))
             if bind.get_layout() in ("swapped", "grown") and len(a["shape"]) >= 1 and len(a["subs"]):
                 r = u.tt_sub2ind(tuple(a["shape"])[::-1], bind.lay(np.ascontiguousarray(subs[:, ::-1])), order="C")
             else:
@@ -78,6 +88,7 @@ def call(ev: dict) -> dict:
                 # (positions in the other matrix have nothing to do with the value range of the entries)
                 A, B = A.astype(np.int16), B.astype(np.uint8)
             A, B = bind.lay(A), bind.lay(B)
+            watch += [(A, A.copy()), (B, B.copy())]
             if op == "ismember":
                 m, loc = u.tt_ismember_rows(A, B)
                 return {"st": "ok", "matched": [bool(x) for x in m], "loc": [int(x) for x in loc]}
@@ -97,6 +108,7 @@ def call(ev: dict) -> dict:
             kinds = {"default": [float], "swapped": [np.int64, float], "strided": [float, np.int32], "grown": [np.int16, np.int64, float]}[bind.get_layout()]
             mats = [bind.lay(np.array(m, dtype=(kinds[j % len(kinds)] if np.all(np.array(m) == np.round(np.array(m))) else float)))
                     for j, m in enumerate(a["mats"])]
+            watch += [(m, m.copy()) for m in mats]
             r = ttb.khatrirao(*mats, reverse=bool(a["reverse"]))
             return {"st": "ok", "m": bind.matrix(r)}
     except bind.Inexact as e:
